@@ -462,6 +462,11 @@ class Facts:
 
     def free_fn(self, mod, name):
         fn = self.free_fns.get((mod, name))
+        if fn is None:
+            # a private helper moved to another module of the crate is the same helper: accept it when the name is unique crate-wide
+            hits = [f for (m_, n_), f in self.free_fns.items() if n_ == name]
+            if len(hits) == 1:
+                fn = hits[0]
         if fn is not None:
             self.touched[id(fn)] = ("%s::%s" % (mod, name), fn)
         return fn
